@@ -344,11 +344,32 @@ fn alloc_stats<const N: usize>() {
     std::mem::forget(ctx);
 }
 
-// @cell props=C05 tier=thorough kind=attempt timeout=900 mem=24 cls=N
+/// SipHash replaced by the identity on the (u32) key: which bucket a key lands in is irrelevant to the statistics;
+/// the real hashbrown table (probing, control bytes, growth) stays in the query. One hasher is alive at a time.
+struct HGhost { magic: u64, h: u64 }
+static mut HG: HGhost = HGhost { magic: 0xD1FA_57A7_1C00_0502, h: 0 };
+fn hasher_write_id(_h: &mut std::hash::DefaultHasher, bytes: &[u8]) {
+    unsafe {
+        let mut v = 0u64;
+        let mut i = 0;
+        while i < bytes.len() && i < 4 {
+            v |= (bytes[i] as u64) << (8 * i);
+            i += 1;
+        }
+        HG.h = v;
+    }
+}
+fn hasher_finish_id(_h: &std::hash::DefaultHasher) -> u64 {
+    unsafe { HG.h }
+}
+
+// @cell props=C05 tier=thorough kind=attempt timeout=900 mem=24 cls=K
 // @desc allocation figures, 2 samples with symbolic per-sample max-count / alloc tallies in the real HashMap
 #[kani::proof]
 #[kani::unwind(6)]
 #[kani::stub(std::hash::RandomState::new, rs_stub)]
+#[kani::stub(<std::hash::DefaultHasher as std::hash::Hasher>::write, hasher_write_id)]
+#[kani::stub(<std::hash::DefaultHasher as std::hash::Hasher>::finish, hasher_finish_id)]
 fn c05_alloc_by_sample_n2() {
     alloc_stats::<2>()
 }
